@@ -206,6 +206,11 @@ func (e *Evaluator) eval(node parser.Node) (value, error) {
 		return nil, ErrStopped
 	}
 	e.yield()
+	if e.Stopped {
+		// The platform may raise the stop flag while we yield; do not
+		// evaluate the current node in that case.
+		return nil, ErrStopped
+	}
 	switch node := node.(type) {
 	case *parser.Program:
 		return e.evalProgram(node)
